@@ -30,6 +30,9 @@ class OversamplingWrapper(KDSubset):
             # add samples from minority classes until they have the same count as the majority class
             indices = []
             for i in range(len(class_counts)):
+                # if class is not contained in dataset -> cant oversample it (would loop forever)
+                if class_counts[i] == 0:
+                    continue
                 remaining_indices = max_class_count
                 indices_for_cur_class = (classes == i).nonzero().squeeze(1)
                 while remaining_indices > 0:
